@@ -366,8 +366,14 @@ func (dr *dirRepo) BlobCreate(opts ...BlobOpt) (BlobCreator, string, error) {
 		if err := conf.expect.Validate(); err != nil {
 			return nil, "", fmt.Errorf("invalid digest: %s: %w", string(conf.expect), err)
 		}
-		_, err := os.Stat(filepath.Join(dr.path, blobsDir, conf.expect.Algorithm().String(), conf.expect.Encoded()))
+		blobName := filepath.Join(dr.path, blobsDir, conf.expect.Algorithm().String(), conf.expect.Encoded())
+		_, err := os.Stat(blobName)
 		if err == nil {
+			// the caller treats this like a finished upload, the blob is as recent as one
+			now := time.Now()
+			if err := os.Chtimes(blobName, now, now); err != nil {
+				return nil, "", fmt.Errorf("failed to refresh the age of blob %s: %w", conf.expect.String(), err)
+			}
 			return nil, "", types.ErrBlobExists
 		}
 	}
